@@ -118,7 +118,7 @@ def run(tier: str) -> int:
     seeds = ["1", "2", "3", "random"] if tier == "quick" else ["1", "2", "3", "4", "5", "6", "7", "random", "random"]
     procs = []
     for s in seeds:
-        env = dict(os.environ, PYTHONHASHSEED=s, PYTHONPATH="/repo:/verif")
+        env = dict(os.environ, PYTHONHASHSEED=s, PYTHONPATH=os.environ.get("VERIF_REPO", "/repo") + ":" + core.ROOT)
         procs.append((s, subprocess.Popen([sys.executable, "-m", "harness.c02", "--child", tier], env=env, stdout=subprocess.PIPE, text=True)))
     events, keys, classes = [], [], {}
     footprint = {}
